@@ -165,10 +165,14 @@ func (x *Exec) execFrom(st *State, fr *Frame, b *ssa.BasicBlock, idx int) {
 			val := x.get(st, fr, v.Val)
 			x.store(st, x.addrOf(p), retype(val, x.addrOf(p).T))
 		case *ssa.MakeMap:
+			if v.Reserve != nil {
+				x.allocObligation(st, fr, v.Reserve, pos)
+			}
 			fr.regs[v] = x.mapMake(st, v.Type())
 		case *ssa.MakeSlice:
 			fr.regs[v] = x.makeSlice(st, fr, v, pos)
 		case *ssa.MakeChan:
+			x.allocObligation(st, fr, v.Size, pos)
 			r := x.allocRef(st, "chan")
 			x.setTyp(st, r, v.Type())
 			sz := x.get(st, fr, v.Size)
@@ -401,8 +405,19 @@ func (x *Exec) typeAssert(st *State, fr *Frame, v *ssa.TypeAssert, pos string, b
 	iv := x.get(st, fr, v.X)
 	at := v.AssertedType
 	if _, isIface := at.Underlying().(*types.Interface); isIface {
-		// interface-to-interface assertion: succeeds iff dynamic type implements; we only support the non-nil case
+		// interface-to-interface assertion: succeeds iff the value is non-nil and its dynamic type implements the interface
 		ok := not(eq(iv.Tag, "0"))
+		if ai := at.Underlying().(*types.Interface); ai.NumMethods() > 0 {
+			impl := x.implTerm(iv.Tag, at)
+			if kt, known := st.knownTag[iv.Tag]; known {
+				impl = fmt.Sprint(types.Implements(kt, ai))
+			} else if iv.DynT != nil {
+				impl = fmt.Sprint(types.Implements(iv.DynT, ai))
+			} else if types.AssignableTo(iv.T, at) {
+				impl = "true"
+			}
+			ok = and(ok, impl)
+		}
 		res := iv
 		res.T = at
 		if v.CommaOk {
@@ -601,7 +616,31 @@ func (x *Exec) sliceOp(st *State, fr *Frame, v *ssa.Slice, pos string) Val {
 	return Val{}
 }
 
+// memcap: an uninterpreted constant standing for "what fits in memory". Known about it: it is at least 65536, and (in
+// functions with an allocbound directive) the capacity of every existing slice and the length of every existing map are
+// below it. An allocation sized by a number that is not bounded by existing data (or by constants) cannot be shown to be
+// below 65536*memcap - which is how "memory proportional to the data, not to numbers in the request" is checked.
+func (x *Exec) memcap() string {
+	if _, ok := x.decls.set["memcap"]; !ok {
+		x.decls.Const("memcap", "Int")
+		x.ensurePre("(>= memcap 65536)")
+	}
+	return "memcap"
+}
+
+func (x *Exec) allocObligation(st *State, fr *Frame, size ssa.Value, pos string) {
+	if x.con == nil || len(x.con.AllocProps) == 0 || x.mode != ModeInt {
+		return
+	}
+	if _, isConst := size.(*ssa.Const); isConst {
+		return
+	}
+	sz := x.toIdx(x.get(st, fr, size))
+	x.oblige(st, "alloc", "proportional", pos, app("<=", sz, app("*", "65536", x.memcap())), x.con.AllocProps)
+}
+
 func (x *Exec) makeSlice(st *State, fr *Frame, v *ssa.MakeSlice, pos string) Val {
+	x.allocObligation(st, fr, v.Cap, pos)
 	n := x.toIdx(x.get(st, fr, v.Len))
 	c := x.toIdx(x.get(st, fr, v.Cap))
 	g := and(x.idxGe0(n), x.idxLe(n, c))
